@@ -10,6 +10,7 @@ from proxy.common import utils as _utils
 from proxy.core.connection import server as _srv
 from proxy.http.url import Url
 from proxy.http.exception import HttpProtocolException
+from proxy.http.proxy import HttpProxyBasePlugin
 from proxy.http.responses import BAD_REQUEST_RESPONSE_PKT, BAD_GATEWAY_RESPONSE_PKT
 
 from vlib import envkit
@@ -178,6 +179,59 @@ def target(h0: int, h1: int, h2: int, port: int, p0: int, p1: int) -> bool:
     return ok()
 
 
+class _Resolver(HttpProxyBasePlugin):
+    """A resolve_dns plugin answering with a fixed address for every name (what the shipped CustomDnsResolverPlugin does with a real
+    lookup); the port to connect to is still the one the request-target names."""
+
+    def resolve_dns(self, host, port):
+        return '10.9.8.7', None
+
+
+FLAGS_DNS = FlagParser.initialize(['--threadless'], plugins=[_Resolver])
+
+
+def resolved(port: int, port2: int, f1: int, f2: int) -> bool:
+    """
+    pre: 1 <= port <= 65535 and 1 <= port2 <= 65535
+    pre: 0 <= f1 <= 2 and 0 <= f2 <= 2
+    post: _
+    """
+    begin()
+    # several connections of one worker name the same host with (possibly) different ports, explicit or defaulted, http or CONNECT:
+    # each is connected to the plugin-resolved address and to ITS OWN port
+    ports = [port, port2]
+    forms = [f1, f2]
+    with concrete():
+        env = envkit.new_env()
+    for i in range(2):
+        p, f = ports[i], forms[i]
+        if f == 0:
+            line = b'GET http://h.example:' + str(p).encode() + b'/ HTTP/1.1\r\nHost: h.example\r\n\r\n'
+            want = p
+        elif f == 1:
+            line = b'CONNECT h.example:' + str(p).encode() + b' HTTP/1.1\r\n\r\n'
+            want = p
+        else:
+            line = b'GET http://h.example/ HTTP/1.1\r\nHost: h.example\r\n\r\n'
+            want = 80
+        del CALLS[:]
+        with concrete():
+            h, cs = envkit.make_handler(FLAGS_DNS, env, name='client%d' % i)
+        cs.inq.append(line)
+        try:
+            td = run(h.handle_events([cs.fd], []))
+        except Exception as e:
+            return fail('exception left handle_events', exc=repr(e), connection=i)
+        if td or h.must_flush_before_shutdown:
+            return fail('valid target rejected', connection=i, out=repr(cat(h.work.buffer)[:40]))
+        if len(CALLS) != 1:
+            return fail('not exactly one outbound connection', calls=repr(CALLS), connection=i)
+        how, fam, addr = CALLS[0]
+        if (addr[0], addr[1]) != ('10.9.8.7', want):
+            return fail('connection %d went to a different address/port than its target names' % i, call=repr(CALLS[0]), want=repr(('10.9.8.7', want)))
+    return ok()
+
+
 DAMAGED = {
     'nobracket': b'http://[::1/x', 'badport': b'http://h.example:8{}/', 'badport2': b'h.example:{}{}', 'emptyhost': b'http://:80/',
     'emptyhost2': b':443', 'scheme': b'ft{}://h.example/', 'emptyport': b'http://h.example:/', 'negport': b'http://h.example:-{}/',
@@ -284,6 +338,7 @@ def obligations(tier):
     for pv in (1, 80, 443, 65535):
         obs.append({'name': 'target.abs.name1.portval%d' % pv, 'fn': 'target',
                     'cfg': {'form': 'abs', 'host': 'name1', 'port': True, 'plen': 0, 'portval': pv}, 'timeout': 120})
+    obs.append({'name': 'resolved.two_connections', 'fn': 'resolved', 'cfg': {}, 'timeout': 300})
     for kind in DAMAGED:
         if kind == 'spacehost':
             continue
@@ -296,6 +351,7 @@ META = {
         'quick': 'forms: absolute http://, scheme-less //, CONNECT authority; hosts: reg-names with 1-3 symbolic [a-z0-9] characters, IPv4 '
                  'with 2 symbolic digits, 6 IPv6 spellings (::x, x::1, 2001:db8::x:1, ::ffff:1.2.3.x, full form, ::) with a symbolic hex digit; '
                  'port absent or symbolic 1..65535 rendered with str(); optional userinfo u:p; path of 0..2 symbolic visible characters; '
+                 'with a resolve_dns plugin: two successive connections of one worker to the same host, ports symbolic, explicit/defaulted, http/CONNECT; '
                  'damaged: missing bracket, non-numeric/empty/negative/over-range/zero port, empty host, unknown scheme',
         'thorough': 'all combinations of form x host x port x path x userinfo',
     },
